@@ -31,6 +31,7 @@ import Driver.Sites
 import Driver.G72x
 import Driver.Small3
 import Driver.Gsm
+import Driver.GeomFix
 open Sf
 
 def lawOf (s : String) : Option G711.Law :=
@@ -107,4 +108,5 @@ def main (args : List String) : IO UInt32 := do
   | "g72x" :: rest => Driver.G72x.cmd rest
   | "small3" :: rest => Driver.Small3.cmd rest
   | "gsm" :: rest => Driver.Gsm.cmd rest
+  | "geomfix" :: rest => Driver.GeomFix.cmd rest
   | _ => IO.eprintln "usage: sfmodel <g711|...> ..."; return 2
